@@ -327,6 +327,25 @@ func main() {
 					}
 				}
 			}
+			// many rows: an implementation that handles rows in groups must not
+			// carry a decision from one group to the next
+			for _, shp := range mc.AllSeqs(3, mc.Pick(r, 9, 11)) { // up to 9/11 rows of length 0..2
+				if len(shp) < 4 {
+					continue
+				}
+				for i := 0; i <= 2; i++ {
+					cases = append(cases, tcase{Fn: "Stripe", Shape: shp, Arg: i})
+				}
+			}
+			for rows := 8; rows <= 13; rows++ {
+				for mask := 0; mask < 1<<rows; mask++ { // rows of length 1 or 3
+					shp := make([]int, rows)
+					for k := range shp {
+						shp[k] = 1 + 2*(mask>>k&1)
+					}
+					cases = append(cases, tcase{Fn: "Stripe", Shape: shp, Arg: 1}, tcase{Fn: "Stripe", Shape: shp, Arg: 2})
+				}
+			}
 			for _, shp := range mc.AllSeqs(4, 3) { // up to 3 rows of length 0..3
 				for i := 0; i <= 3; i++ {
 					cases = append(cases, tcase{Fn: "Stripe", Shape: shp, Arg: i})
@@ -347,7 +366,7 @@ func main() {
 			r.Bound("max_len", maxLen)
 			r.Bound("rotate_max_len", rotLen)
 			r.Bound("spare_capacity", "0..2, plus the nil slice")
-			r.Rule("Partition: all 2^n keep patterns; Rotate: all k in -n-2..n+2; Chunks/Batches: n in -1..len+2 and 13 values at the ends of the int range (also for Head/Tail/At/PtrAt/Rotate, lengths 0..6); Head/Tail: 0..len+2; At/PtrAt: -len-2..len+1; Stripe: all ragged shapes up to 3x3; non-trivial = cases on slices of length >= 2")
+			r.Rule("Partition: all 2^n keep patterns; Rotate: all k in -n-2..n+2; Chunks/Batches: n in -1..len+2 and 13 values at the ends of the int range (also for Head/Tail/At/PtrAt/Rotate, lengths 0..6); Head/Tail: 0..len+2; At/PtrAt: -len-2..len+1; Stripe: all ragged shapes up to 3x3, up to 9/11 rows of length 0..2, and 8..13 rows of length 1 or 3; non-trivial = cases on slices of length >= 2")
 			r.Assume("capacity-clipped means cap == len for the Partition result and for every chunk/batch; checked with spare capacity 0..2 behind the input")
 			r.Sample(tcase{Fn: "Rotate", Len: 7, Arg: -1})
 			r.Sample(tcase{Fn: "Batches", Len: 0, Arg: 1})
